@@ -23,7 +23,7 @@ ASSUMPTIONS = [
 ]
 BUDGET = {"quick": 85, "thorough": 900}
 FLOORS = {"reversals": {"quick": 250, "thorough": 2500}, "determinants": {"quick": 120, "thorough": 1200}, "order_fits": {"quick": 25, "thorough": 250},
-          "hastings_terms": {"quick": 120, "thorough": 1200}, "nan_region_steps": 8, "targets": 6}
+          "hastings_terms": {"quick": 120, "thorough": 1200}, "nan_region_steps": 8, "retried_then_succeeded": {"quick": 8, "thorough": 40}, "targets": 6}
 
 TARGETS = ["gaussian", "correlated", "gamma-exp", "beta-sigmoid", "hierarchical", "phylo-unrooted", "phylo-time-ratio"]
 IDENT = ["reversal", "reversal", "volume", "order", "hastings", "hastings"]
@@ -39,8 +39,8 @@ def cases(tier, seed):
         if ident == "order" and t.startswith("phylo"):
             ident = "reversal"
         out.append({"target": t, "identity": ident, "seed": int(rng.integers(2**31)), "d": int(rng.integers(1, 9)), "split": int(rng.integers(1, 4)),
-                    "eps": float(gm.loguniform(rng, 1e-3, 0.5)), "L": int(rng.integers(1, 31)), "mass": str(rng.choice(["diag", "dense", "identity"]))})
-    for i in range(10 if tier == "quick" else 60):
+                    "eps": float(gm.loguniform(rng, 1e-3, 0.5)), "L": int(rng.integers(1, 31)), "mass": str(rng.choice(["diag", "dense", "identity"])), "late_step_size": bool(i % 2)})
+    for i in range(24 if tier == "quick" else 120):
         out.append({"target": "nan-region", "identity": "nan", "seed": int(rng.integers(2**31)), "d": 2, "split": 1, "eps": 0.3, "L": 5, "mass": "identity"})
     return out
 
@@ -150,7 +150,12 @@ def run_case(case):
 
     def flow(q, p, e=eps, steps=L):
         setq(q)
-        integ = LeapfrogIntegrator(None, steps, e)
+        if case.get("late_step_size"):
+            # the step size is (re)assigned after construction, as tuning, adaptors, find_reasonable_step_size and load_state_dict do
+            integ = LeapfrogIntegrator(None, steps, e * 3.7)
+            integ.step_size = e
+        else:
+            integ = LeapfrogIntegrator(None, steps, e)
         p1 = integ(joint, params, p.clone(), Minv)
         return getq(), p1.detach().clone()
 
@@ -249,7 +254,8 @@ def run_hastings(case, dic, joint, params, pids, M, eps, L, V, C, detail):
     from torchtree.inference.hmc.integrator import LeapfrogIntegrator
     from torchtree.inference.hmc.operator import HMCOperator
 
-    integ = LeapfrogIntegrator("integ", L, eps)
+    integ = LeapfrogIntegrator("integ", L, eps * (0.31 if case.get("late_step_size") else 1.0))
+    integ.step_size = eps
     mm = Parameter("mass", M.clone())
     op = HMCOperator("hmc", joint, params, integ, mm, disable_adaptation=True)
     rec = {}
@@ -335,15 +341,46 @@ def run_nan(case, rng, V, C):
             raise NotImplementedError
 
     x = Parameter("x", torch.tensor(rng.normal(0, 0.2, 2)))
-    bound = float(rng.choice([0.5, 1e-3]))  # 1e-3: every proposal leaves the region -> ten failures -> inf
+    bound = float(rng.choice([0.5, 0.8, 1.2, 1e-3]))  # 1e-3: every proposal leaves the region -> ten failures -> inf
     x.tensor = torch.tensor(rng.uniform(-bound / 2, bound / 2, 2))
     model = Cliff(x, bound)
-    op = HMCOperator("hmc", model, [x], LeapfrogIntegrator("i", 5, 0.4), Parameter("m", torch.ones(2, dtype=torch.float64)), disable_adaptation=True)
+    integ = LeapfrogIntegrator("i", 5, 0.4)
+    op = HMCOperator("hmc", model, [x], integ, Parameter("m", torch.ones(2, dtype=torch.float64)), disable_adaptation=True)
     detail = {"case": case, "bound": bound}
-    for it in range(4):
+    rec = {"p0": [], "p1": []}
+    ham = op._hamiltonian
+    orig_sample = ham.sample_momentum
+
+    def sample(mass):
+        p = orig_sample(mass)
+        rec["p0"].append(p.detach().clone())
+        return p
+
+    ham.sample_momentum = sample
+    orig_call = type(integ).__call__
+
+    class Wrapped(type(integ)):
+        def __call__(self_, model_, parameters, momentum, inv):
+            out = orig_call(self_, model_, parameters, momentum, inv)
+            rec["p1"].append(out.detach().clone())
+            return out
+
+    integ.__class__ = Wrapped
+    for it in range(8):
         before = x.tensor.detach().clone()
+        rec["p0"].clear(), rec["p1"].clear()
         hr = op.step()
         C["nan_region_steps"] += 1
+        if not torch.isinf(hr) and rec["p0"] and rec["p1"]:
+            # the Hastings term is the change in kinetic energy of the trial that succeeded: its own momentum draw, its own end point
+            K = lambda p: float(0.5 * (p @ p))
+            expect = K(rec["p0"][-1]) - K(rec["p1"][-1])
+            if len(rec["p0"]) > 1:
+                C["retried_then_succeeded"] = C.get("retried_then_succeeded", 0) + 1
+            if abs(float(hr) - expect) > 1e-9 * max(1.0, abs(expect)):
+                V.append(tt.viol("C16:hastings-term:after-%s" % ("retry" if len(rec["p0"]) > 1 else "first-trial"), "step() returned %.12g after %d momentum draws, the change in kinetic energy of the successful trajectory is %.12g"
+                                 % (float(hr), len(rec["p0"]), expect), **detail))
+                break
         inside = float(x.tensor.detach().abs().max()) <= bound
         if torch.isinf(hr):
             if not torch.equal(x.tensor.detach(), before):
